@@ -3,7 +3,7 @@ import itertools, json, os, subprocess, time
 from ..interp import Interp, Obj, Sym, View, vkey, _Ref, _ValPlace
 from ..build import AnalysisBroken
 from ..lib_c08 import (Fn, Summary, select, Uninterpretable, StepInterp, GuardInterp, int_locals_written_in, find_member_loop,
-                       IterInterp, enclosing_loops, generic_args, may_write_through, HeaderTypes, leaves, Ownership, SHARED)
+                       IterInterp, enclosing_loops, generic_args, may_write_through, HeaderTypes, leaves, Ownership, SHARED, UNKNOWN)
 
 PU = 'parse.c'
 
@@ -24,7 +24,10 @@ def run(P, rep, tier):
         'types (fields of the type that are not layout state are unconstrained). stddef.h is read through clang and compared with the types the compiler gives sizeof, pointer '
         'difference and wide literals; every ABI-visible typedef of stddef.h, stdarg.h and stdatomic.h is laid out by the psABI rules from its declaration and '
         'its size, alignment, signedness (and for va_list the member offsets) are compared with the platform ABI. Not decided: the fold of the step function over member sequences (the step + entry + exit '
-        'obligations are the induction argument), declarators, initialisers, offsetof (a macro).')
+        'obligations are the induction argument), declarators, initialisers, the value offsetof yields. Decided for offsetof: that the expansion <stddef.h> gives is a constant expression for '
+        'is_const_expr(), the predicate that chooses between a fixed-size and a variable-length array type. Ownership of type objects (R08.6): a flow-sensitive provenance analysis over every function of every unit '
+        'decides for each store into a Type/Member object whether the object can be one that other declarations share (typedef\'d types, ty_* globals, `ty`/`base` fields); only objects the '
+        'activation created, or the type of a tag that a definition completes, may be written; functions that store through a parameter are followed to every caller.')
     rep.assumptions += [
         'calloc succeeds and zero-fills', 'equal()/consume()/skip() compare a token with a spelling (tokenize.c)',
         'layout grid: running offset 0..287 bits, bit-field types of 1,2,4,8 bytes with every width 1..8*size, member sizes 0..48, alignments 1..16; values never overflow int',
@@ -32,11 +35,13 @@ def run(P, rep, tier):
         'struct_members() writes members/is_flexible of the type it is given and attribute_list() is_packed/align (each checked on its own); declspec() only adds to *attr',
         'a non-positive aligned() argument may be ignored or diagnosed (not judged further); alignments that are not powers of two are outside the attribute grid',
         'packed + explicit member _Alignas is outside the oracle (GNU extension interplay); packed layouts are compared with gcc, the rest with psABI 3.1.2',
+        'Type.name/name_pos (the identifier a declarator records in whatever type object it returns) and Type.vla_size (run-time size slot of a VLA type, assigned where the declaration is evaluated) do not describe the type: stores into them are not judged by R08.6',
+        'R08.6: pointer provenance is tracked through locals, returns and parameters; the value of a `Type *` field or global is "shared"; a `Member *` loaded from a type object belongs to that object (a shallow copy_type() copy still shares its member list: not distinguished); a store into a shared object on a path that correlated conditions exclude is still reported',
         'platform ABI of the header typedefs: gcc <stddef.h>/<stdarg.h>/<stdatomic.h> with glibc <stdint.h> on x86-64 (int_fast16/32/64_t are long); _Atomic T has the size and alignment of T (T up to 8 bytes)',
     ]
     import traceback
     for rule, f in (('R08.3', r083), ('R08.2', r082), ('R08.1', r081), ('R08.4', r084), ('R08.4', r084_alignas_specifier), ('R08.4', r084_specifier_state), ('R08.5', r085),
-                    ('R08.5', r085_abi_layout), ('R08.6', r086)):
+                    ('R08.5', r085_abi_layout), ('R08.5', r085_offsetof), ('R08.6', r086)):
         try:
             f(P, u, rep)
         except AnalysisBroken as ex:          # one rule's anchors vanishing must not silence the others
@@ -1005,7 +1010,7 @@ def r083_definition(P, u, rep):
         f = work.pop()
         for c in f.calls():
             name = c.callee()
-            if not name or name in ('attribute_list', 'struct_members') or name in tu.functions or name in ('calloc', 'malloc') or name in inlined:
+            if not name or name in ('attribute_list', 'struct_members') or name in tu.functions or name in ('calloc', 'malloc', 'memcpy', 'memmove') or name in inlined:
                 continue
             t = ' '.join((c.dtype or c.type or '').split()).replace('struct ', '')
             if t in ('Type *', 'void *'):
@@ -1063,7 +1068,17 @@ def r083_definition(P, u, rep):
         cuts = {'attribute_list': cut_attr, 'struct_members': cut_members}
         for l in lookups:
             cuts[l] = cut_lookup
-        it = Interp(P, u, {'opaque': opaque, 'cut': cuts, 'loop_limit': 1, 'track_stores': False})
+        def m_copy(it, ctx, call, args):
+            # memcpy(dst, src, sizeof(Type)) between two type objects = `*dst = *src`; any other use is not modelled
+            d_, s_ = [(it.settle(a) if isinstance(a, View) else a) for a in args[:2]]
+            if not (isinstance(d_, Obj) and isinstance(s_, Obj) and d_.tname == s_.tname == 'Type' and not s_.lazy):
+                raise AnalysisBroken('%s() on something else than two type objects' % call.callee())
+            d_.fields.clear()
+            d_.fields.update(s_.fields)
+            d_.lazy = False
+            return d_
+        it = Interp(P, u, {'opaque': [o for o in opaque if o not in ('memcpy', 'memmove')], 'cut': cuts, 'models': {'memcpy': m_copy, 'memmove': m_copy},
+                           'loop_limit': 1, 'track_stores': False})
         try:
             paths = it.explore(fname, generic_args(u, fname), max_paths=2000)
         except AnalysisBroken as ex:
@@ -1443,9 +1458,9 @@ def _flexible_array(rep, it, paths, where):
     inplace = None
     for ctx, out in paths:
         for e in ctx.events:
-            if (e[0] == 'fstore' and isinstance(e[1], Obj) and e[1].tname == 'Type' and e[1].lazy and e[1].label != 'ty'
-                    and e[2] not in _NOT_DESCRIPTIVE and inplace is None):
-                inplace = (e[2], e[1].label.split('#')[0])
+            if (e[0] == 'fstore' and isinstance(e[1], Obj) and e[1].tname == 'Type' and e[1].lazy and e[2] not in _NOT_DESCRIPTIVE and inplace is None
+                    and (e[1].label or '').split('#')[0] in ('declarator', 'declspec', 'basety')):
+                inplace = (e[2], 'declarator' if e[1].label.startswith('declarator') else 'declspec')
     if inplace:
         rep.ob('R08.3', key, False, 'struct_members() writes the field `%s` of the type object that %s() returned for a member instead of giving the member a new type: when the member '
                'is declared through a typedef (`typedef int V[]; struct S { int n; V data; };`) the typedef\'d type itself is changed, and every later `V x = {1,2,3};` gets the '
@@ -1700,6 +1715,9 @@ def r086(P, u, rep):
             if not atoms:
                 rep.undecided('R08.6', key, 'the analysis found no object that the pointer stored through could point to', where=where)
                 continue
+            if UNKNOWN in atoms and SHARED not in atoms:
+                rep.undecided('R08.6', key, '%s() stores through a pointer whose value the analysis does not track (a local whose address was taken, or the target of a pointer to a pointer)' % fn, where=where)
+                continue
             fld = 'every field' if field == '*' else 'the field `%s`' % field
             rep.ob('R08.6', key, SHARED not in atoms,
                    '%s() stores into %s of a %s object that may be %s: the change is seen by every other declaration and expression that uses the same type object '
@@ -1714,6 +1732,9 @@ def r086(P, u, rep):
             where = '%s:%d' % (un, line)
             if not atoms:
                 continue            # a null argument
+            if UNKNOWN in atoms and SHARED not in atoms:
+                rep.undecided('R08.6', key, '%s() hands %s() a pointer whose value the analysis does not track (a local whose address was taken, or the target of a pointer to a pointer)' % (fn, callee), where=where)
+                continue
             rep.ob('R08.6', key, SHARED not in atoms,
                    '%s() hands %s() as `%s` %s; %s() stores into it (%s): the change is seen by every other user of the same type object' % (
                        fn, callee, pname(callee, i), what_shared.replace('it did not create', '%s() did not create' % fn), callee, ', '.join(fields)),
@@ -1985,6 +2006,150 @@ def r085(P, u, rep):
             rep.ob('R08.5', '%s:max_align_t:alignment' % H, al >= max(mx, 16),
                    'max_align_t is `%s` (alignment %d) but the most aligned scalar type has alignment %d (long double; psABI: _Alignof(max_align_t) == 16): storage aligned for max_align_t is misaligned for long double' % (t, al, max(mx, 16)),
                    where='%s:%d' % (H, line))
+
+
+
+# =====================================================================================
+# R08.5 (cont.) offsetof of the bundled <stddef.h> is an integer constant expression for this compiler
+# =====================================================================================
+_CLANG_BINOP = {'+': 'ND_ADD', '-': 'ND_SUB', '*': 'ND_MUL', '/': 'ND_DIV', '%': 'ND_MOD', '&': 'ND_BITAND', '|': 'ND_BITOR', '^': 'ND_BITXOR',
+                '<<': 'ND_SHL', '>>': 'ND_SHR', '==': 'ND_EQ', '!=': 'ND_NE', '<': 'ND_LT', '<=': 'ND_LE', '&&': 'ND_LOGAND', '||': 'ND_LOGOR', ',': 'ND_COMMA'}
+_CLANG_UNOP = {'&': 'ND_ADDR', '*': 'ND_DEREF', '-': 'ND_NEG', '!': 'ND_NOT', '~': 'ND_BITNOT'}
+
+
+def _node_shape(d):
+    """clang expression (JSON) -> (node kind the parser builds for it, {operand field: shape}); Uninterpretable for anything else"""
+    k = d.get('kind')
+    I = [c for c in (d.get('inner') or []) if c]
+    if k in ('ParenExpr', 'ConstantExpr', 'ImplicitCastExpr') and I:
+        return _node_shape(I[0])
+    if k == 'IntegerLiteral' or k == 'CharacterLiteral':
+        return ('ND_NUM', {})
+    if k == 'CStyleCastExpr' and I:
+        return ('ND_CAST', {'lhs': _node_shape(I[-1])})
+    if k == 'UnaryOperator' and d.get('opcode') in _CLANG_UNOP and I:
+        return (_CLANG_UNOP[d['opcode']], {'lhs': _node_shape(I[0])})
+    if k == 'MemberExpr' and I:
+        b = _node_shape(I[0])
+        return ('ND_MEMBER', {'lhs': ('ND_DEREF', {'lhs': b}) if d.get('isArrow') else b})
+    if k == 'BinaryOperator' and d.get('opcode') in _CLANG_BINOP and len(I) == 2:
+        return (_CLANG_BINOP[d['opcode']], {'lhs': _node_shape(I[0]), 'rhs': _node_shape(I[1])})
+    if k == 'UnaryExprOrTypeTraitExpr':
+        return ('ND_NUM', {})
+    raise Uninterpretable('expression kind %s in the expansion' % k)
+
+
+def _switch_arms(fn):
+    """{enumerator: [statements of its arm]}, [statements of the default arm / after the switch] for the switch over a node kind in fn"""
+    sws = [x for x in fn.find('SwitchStmt') if x.enclosing('SwitchStmt') is None]
+    if len(sws) != 1 or not sws[0].inner or sws[0].inner[-1].kind != 'CompoundStmt':
+        raise Uninterpretable('%s() is not one switch over the node kind' % fn.name)
+    sw = sws[0]
+    arms, default, cur = {}, None, None
+    for c in sw.inner[-1].inner:
+        if c.kind in ('CaseStmt', 'DefaultStmt'):
+            cur = []
+            x = c
+            while x.kind in ('CaseStmt', 'DefaultStmt'):
+                if x.kind == 'DefaultStmt':
+                    default = cur
+                else:
+                    names = [y.ref_name for y in x.inner[0].walk() if y.kind == 'DeclRefExpr' and y.ref_kind == 'EnumConstantDecl']
+                    if len(names) != 1:
+                        raise Uninterpretable('case label of %s() is not one enumerator' % fn.name)
+                    arms[names[0]] = cur
+                x = x.inner[-1]
+            cur.append(x)
+        elif cur is not None:
+            cur.append(c)
+    if default is None:
+        body = [c for c in fn.inner if c.kind == 'CompoundStmt'][0]
+        default = body.inner[body.inner.index(sw) + 1:]
+    return arms, default
+
+
+def _accepts(u, fname, shape, depth=0):
+    """does the predicate fname(node) (a switch over node->kind whose arms return a constant or recurse into operands) accept the shape?
+    True / False; Uninterpretable when the predicate has another form"""
+    if depth > 40:
+        raise Uninterpretable('predicate recursion too deep')
+    fn = u.fn(fname)
+    if fn is None:
+        raise Uninterpretable('%s() is not defined in %s' % (fname, u.name))
+    ps = u.params(fname)
+    if not ps or _norm_ptr(ps[0].type) != 'Node *':
+        raise Uninterpretable('%s() does not take a node' % fname)
+    pn = ps[0].name
+    arms, default = _switch_arms(fn)
+    kind, kids = shape
+    stmts = arms.get(kind, default)
+    rets = [r for s_ in stmts for r in ([s_] if s_.kind == 'ReturnStmt' else s_.find('ReturnStmt'))]
+    if not rets:
+        raise Uninterpretable('the arm of %s() for %s does not return' % (fname, kind))
+    consts = [r.inner[0].int_value() if r.inner else None for r in rets]
+    if all(c is not None for c in consts):
+        if all(c for c in consts):
+            return True
+        if not any(consts):
+            return False
+    for field, sub in kids.items():
+        calls = [c for s_ in stmts for c in s_.calls() if c.callee() in u.functions and c.args() and c.args()[0].src() == '%s->%s' % (pn, field)]
+        for c in calls:
+            if not _accepts(u, c.callee(), sub, depth + 1):
+                return False
+    return True
+
+
+def _norm_ptr(t):
+    return ' '.join((t or '').replace('struct ', '').replace('*', ' * ').split())
+
+
+def _show_shape(sh):
+    k, kids = sh
+    return k[3:].lower() + ('(' + ', '.join(_show_shape(x) for x in kids.values()) + ')' if kids else '')
+
+
+def r085_offsetof(P, u, rep):
+    """C11 7.19p3: offsetof expands to an integer constant expression. The expansion the bundled <stddef.h> gives is read through clang
+    (a probe `enum { v = offsetof(struct p, m) }` including the header), translated into the node kinds the parser builds for it
+    (& -> ND_ADDR, -> -> ND_MEMBER over ND_DEREF, cast -> ND_CAST, literal -> ND_NUM), and the compiler's own constant-expression predicate
+    is_const_expr() - which array_dimensions() asks to choose between a fixed-size array type and a VLA type - is followed arm by arm over that shape."""
+    H = 'include/stddef.h'
+    key = '%s:offsetof:integer-constant-expression' % H
+    path = P.header(H)
+    probe = '#include "%s"\nstruct __probe { char c; int m; };\nenum { __probe_v = offsetof(struct __probe, m) };\n' % path
+    p = subprocess.run(['clang-14', '-x', 'c', '-std=c11', '-w', '-nostdinc', '-fsyntax-only', '-Xclang', '-ast-dump=json', '-'], input=probe, capture_output=True, text=True)
+    try:
+        top = json.loads(p.stdout)
+    except ValueError:
+        rep.undecided('R08.5', key, 'clang produced no AST for the offsetof probe: %s' % p.stderr[-200:])
+        return
+    init = None
+    for d in top.get('inner', []):
+        if d.get('kind') == 'EnumDecl':
+            for c in d.get('inner', []) or []:
+                if c.get('kind') == 'EnumConstantDecl' and c.get('name') == '__probe_v' and c.get('inner'):
+                    init = c['inner'][0]
+    if p.returncode != 0 or init is None:
+        rep.undecided('R08.5', key, '%s does not define an offsetof that clang accepts in `enum { v = offsetof(struct p, m) }`: %s' % (H, p.stderr[-200:]))
+        return
+    ad = u.fn('array_dimensions')
+    preds = sorted(set(c.callee() for c in ad.calls() if c.callee() in u.functions and _norm_ptr((u.params(c.callee()) or [None])[0].type if u.params(c.callee()) else '') == 'Node *'
+                       and ' '.join((c.dtype or c.type or '').split()) in ('bool', '_Bool', 'int'))) if ad is not None else []
+    if ad is None or not (ad.calls('vla_of') and ad.calls('array_of')) or len(preds) != 1:
+        rep.undecided('R08.5', key, 'array_dimensions() does not choose between array_of() and vla_of() by one predicate over the bound expression (found %s)' % preds)
+        return
+    where = '%s:%d' % (PU, u.fn(preds[0]).line)
+    try:
+        shape = _node_shape(init)
+        ok = _accepts(u, preds[0], shape)
+    except Uninterpretable as ex:
+        rep.undecided('R08.5', key, 'offsetof / %s() not interpretable: %s' % (preds[0], ex), where=where)
+        return
+    rep.ob('R08.5', key, ok, 'offsetof(type, member) of %s expands to %s, which %s() does not accept as a constant expression (the folder eval() does evaluate it): '
+           '`char buf[offsetof(struct S, m)];` gets a variable-length array type - sizeof(buf) is not the psABI size of char[offset], at file scope the object is emitted as an 8-byte '
+           'pointer slot and `sizeof buf` crashes the compiler (C11 7.19p3: offsetof is an integer constant expression)' % (H, _show_shape(shape), preds[0]), where=where,
+           facts={'expansion': _show_shape(shape)})
 
 
 # =====================================================================================
